@@ -150,7 +150,7 @@ pub fn run(tier: Tier, seed: u64) -> Report {
     p.foreign_pct = 130; // relative weight: about a third of all id arguments
     p.w = [40, 18, 25, 8, 4, 5];
     p.av_latest_pct = 55;
-    let total = tier.pick(3000, 80_000);
+    let total = tier.pick(8000, 80_000);
     let r = engine::explore("C09", "history", seed, total, || hcase(&p, 20).prop_filter_map_nclients(), check);
     rep.absorb("random-histories", r);
     rep
